@@ -196,9 +196,12 @@ class LockStep:
         if r["kind"] == "id-request":
             new = set(gw.sensors) - set(mdl.nodes)
             if len(new) == 1:
-                nid = new.pop()
-                mdl.new_node(nid)
-                r["sends"] = mdl.route(n, ("idresp", n, c, nid))
+                nid = next(iter(new))
+                # adopt the gateway's choice only if it is an id at all (C06 judges which one);
+                # anything else stays a difference between the tree and the model
+                if isinstance(nid, int) and not isinstance(nid, bool) and 1 <= nid <= 254:
+                    mdl.new_node(nid)
+                    r["sends"] = mdl.route(n, ("idresp", n, c, nid))
         if r["kind"] == "fw-config-undetermined":
             mdl.observe_fwcfg(n, reply is not None)
         lo, hi = r["cb"]
